@@ -341,9 +341,15 @@ def EscOK (spelling : List Char) (v : Char) : Prop :=
 /-- a character the brace pass copies -/
 def copied (c : Char) : Bool := !(c == '\\' || c == '{' || c == '}')
 
+/-- the brace pass copies the spelling `s` into the pending piece, whatever
+    follows it and whatever is pending (so no brace inside `s` is taken for
+    half of a brace escape, and nothing after `s` is swallowed) -/
+def Transparent (s : List Char) : Prop :=
+  ∀ S acc, partTextGo false (s ++ S) acc = partTextGo false S (s.reverse ++ acc)
+
 def Item.ok : Item → Prop
   | .plain c => copied c = true ∧ c ≠ '"' ∧ c ≠ '\r'
-  | .esc s v => EscOK s v ∧ ∃ k tail, s = '\\' :: k :: tail ∧ k ≠ 'u' ∧ ∀ d ∈ tail, copied d = true
+  | .esc s v => EscOK s v ∧ Transparent s
   | .lbrace => True
   | .rbrace => True
 
@@ -379,6 +385,14 @@ theorem go_esc2 (k : Char) (S acc : List Char) (hk : k ≠ 'u') :
   cases S with
   | nil => rw [partTextGo.eq_def]; simp
   | cons e S => rw [partTextGo.eq_def]; simp [hk]
+
+/-- `\\` + one character other than `u` + characters the pass copies (`\\n`, `\\\\`, `\\x7b`, …) -/
+theorem transparent_of_shape (k : Char) (tail : List Char) (hk : k ≠ 'u') (ht : ∀ d ∈ tail, copied d = true) :
+    Transparent ('\\' :: k :: tail) := by
+  intro S acc
+  simp only [List.cons_append]
+  rw [go_esc2 k _ _ hk, go_plains tail _ _ ht]
+  simp
 
 def combine (c : Char) : Option (List Char) → Option (List Char) → Option (List Char)
   | some a, some b => some (a ++ c :: b)
@@ -474,11 +488,10 @@ theorem partText_items (items pre : List Item) (hok : ∀ it ∈ items, it.ok)
       exact this
     | esc sp v =>
       have := step rfl
-      obtain ⟨_, k, tail, hs, hk, ht⟩ := hit
-      subst hs
-      simp only [spell_snoc, Item.spelling, List.reverse_append, List.reverse_cons] at this
-      simp only [spell, List.map_cons, List.flatten_cons, Item.spelling, List.cons_append]
-      rw [go_esc2 k _ _ hk, go_plains tail _ _ ht]
+      obtain ⟨_, ht⟩ := hit
+      simp only [spell_snoc, Item.spelling, List.reverse_append] at this
+      simp only [spell, List.map_cons, List.flatten_cons, Item.spelling]
+      rw [ht]
       simpa [spell] using this
     | lbrace =>
       simp only [spell, List.map_cons, List.flatten_cons, Item.spelling, List.cons_append, List.nil_append]
@@ -577,5 +590,332 @@ theorem fStringPart_total (inp : List Char) :
         simpa [utf8Len, h1] using this
       simp only [h1, splitAtByte_prefix, hq]
       simp
+
+/-! ## the brace pass run on an arm given as data (`partTextWith`) -/
+
+/-- what the documented pass does after a backslash: the next character is
+    consumed whatever it is; after `u` a following `{` starts a skip to just
+    past the closing `}` -/
+def armDoc : List Char → Nat
+  | [] => 0
+  | [_] => 1
+  | d :: e :: cs => if d == 'u' && e == '{' then 2 + skipCount '}' cs else 1
+
+theorem skipCount_le (stop : Char) (cs : List Char) : skipCount stop cs ≤ cs.length := by
+  induction cs with
+  | nil => simp [skipCount]
+  | cons c cs ih => simp only [skipCount]; split <;> simp <;> omega
+
+theorem go_true_nil (acc : List Char) : partTextGo true [] acc = unescape acc.reverse := by
+  rw [partTextGo.eq_def]
+
+/-- inside `\u{`: everything up to and including the next `}` joins the pending piece -/
+theorem go_inU (cs acc : List Char) :
+    partTextGo true cs acc =
+      partTextGo false (cs.drop (skipCount '}' cs)) ((cs.take (skipCount '}' cs)).reverse ++ acc) := by
+  induction cs generalizing acc with
+  | nil => simp [skipCount, go_true_nil, go_nil]
+  | cons c cs ih =>
+    rw [partTextGo.eq_def]
+    by_cases h : c = '}'
+    · subst h
+      simp [skipCount]
+    · have h1 : (c != '}') = true := by simp [h]
+      have h2 : (c == '}') = false := by simp [h]
+      simp only [h1, skipCount, h2, Bool.false_eq_true, if_false, List.drop_succ_cons, List.take_succ_cons,
+        List.reverse_cons, List.append_assoc, List.singleton_append]
+      exact ih _
+
+theorem armDoc_le (cs : List Char) : armDoc cs ≤ cs.length := by
+  match cs with
+  | [] => simp [armDoc]
+  | [_] => simp [armDoc]
+  | d :: e :: cs =>
+    simp only [armDoc]
+    have := skipCount_le '}' cs
+    split <;> simp <;> omega
+
+/-- the backslash arm of the hand model, in terms of `armDoc` -/
+theorem go_backslash (cs acc : List Char) :
+    partTextGo false ('\\' :: cs) acc =
+      partTextGo false (cs.drop (armDoc cs)) ((cs.take (armDoc cs)).reverse ++ '\\' :: acc) := by
+  match cs with
+  | [] => rw [partTextGo.eq_def]; simp [armDoc, go_nil]
+  | [d] => rw [partTextGo.eq_def]; simp [armDoc]
+  | d :: e :: cs =>
+    rw [partTextGo.eq_def]
+    by_cases h : (d == 'u' && e == '{') = true
+    · simp only [beq_self_eq_true, if_true, h, armDoc]
+      rw [go_inU]
+      have : 2 + skipCount '}' cs = skipCount '}' cs + 1 + 1 := by omega
+      simp [this]
+    · have h' : (d == 'u' && e == '{') = false := by simpa using h
+      simp [h', armDoc]
+
+theorem partTextWith_doc_aux (n : Nat) : ∀ (raw acc : List Char), raw.length ≤ n →
+    partTextWith armDoc ['{', '}'] raw acc = partTextGo false raw acc := by
+  induction n with
+  | zero =>
+    intro raw acc h
+    have : raw = [] := List.length_eq_zero_iff.mp (by omega)
+    subst this
+    rw [partTextWith, go_nil]
+  | succ n ih =>
+    intro raw acc hn
+    match raw with
+    | [] => rw [partTextWith, go_nil]
+    | c :: cs =>
+      have hlen : cs.length ≤ n := by simp at hn; omega
+      rw [partTextWith]
+      by_cases hb : c = '\\'
+      · subst hb
+        simp only [beq_self_eq_true, if_true]
+        rw [go_backslash]
+        exact ih _ _ (by simp only [List.length_drop]; omega)
+      · have hb' : (c == '\\') = false := by simp [hb]
+        simp only [hb', Bool.false_eq_true, if_false]
+        by_cases hbr : (['{', '}'].contains c && cs.head? == some c) = true
+        · simp only [hbr, if_true]
+          obtain ⟨hc, hh⟩ := Bool.and_eq_true_iff.mp hbr
+          have hc' : c = '{' ∨ c = '}' := by simpa using hc
+          match cs, hh, hlen with
+          | d :: S, hh, hlen =>
+            have : d = c := by simpa using hh
+            subst this
+            rw [go_brace d S acc hc', List.tail_cons, ih S [] (by simp at hlen; omega)]
+            cases unescape acc.reverse <;> cases partTextGo false S [] <;> rfl
+        · have hbr' : (['{', '}'].contains c && cs.head? == some c) = false := by simpa using hbr
+          simp only [hbr', Bool.false_eq_true, if_false]
+          rw [ih cs (c :: acc) hlen]
+          -- the hand model copies `c` as well
+          symm
+          match cs with
+          | [] => rw [go_nil, partTextGo.eq_def]
+          | [d] =>
+            rw [partTextGo.eq_def]
+            have : ((c == '{' || c == '}') && d == c) = false := by
+              by_cases h1 : c = '{' <;> by_cases h2 : c = '}' <;> by_cases h3 : d = c <;> simp_all
+            simp [hb', this]
+          | d :: e :: S =>
+            rw [partTextGo.eq_def]
+            have : ((c == '{' || c == '}') && d == c) = false := by
+              by_cases h1 : c = '{' <;> by_cases h2 : c = '}' <;> by_cases h3 : d = c <;> simp_all
+            simp [hb', this]
+
+/-- the pass run on `armDoc` and the braces `{`, `}` IS the hand model, for EVERY text -/
+theorem partTextWith_doc (raw acc : List Char) :
+    partTextWith armDoc ['{', '}'] raw acc = partTextGo false raw acc :=
+  partTextWith_doc_aux raw.length raw acc (Nat.le_refl _)
+
+theorem skipCount_stop (hs S : List Char) (h : ∀ c ∈ hs, c ≠ '}') :
+    skipCount '}' (hs ++ '}' :: S) = hs.length + 1 := by
+  induction hs with
+  | nil => simp [skipCount]
+  | cons c hs ih =>
+    have hc : (c == '}') = false := by simpa using h c (by simp)
+    simp only [List.cons_append, skipCount, hc, Bool.false_eq_true, if_false, List.length_cons]
+    rw [ih (fun x hx => h x (by simp [hx]))]
+
+/-- `\\u{…}`: the pass copies the whole escape, braces included, up to its closing `}` -/
+theorem transparent_unicode (hs : List Char) (h : ∀ c ∈ hs, c ≠ '}') :
+    Transparent ('\\' :: 'u' :: '{' :: (hs ++ ['}'])) := by
+  intro S acc
+  have e : ('\\' :: 'u' :: '{' :: (hs ++ ['}'])) ++ S = '\\' :: ('u' :: '{' :: (hs ++ '}' :: S)) := by simp
+  rw [e, go_backslash]
+  have ha : armDoc ('u' :: '{' :: (hs ++ '}' :: S)) = hs.length + 3 := by
+    simp only [armDoc, beq_self_eq_true, Bool.and_self, if_true]
+    rw [skipCount_stop hs S h]; omega
+  rw [ha]
+  have hd : ('u' :: '{' :: (hs ++ '}' :: S)).drop (hs.length + 3) = S := by
+    simp [List.drop_append]
+  have htk : ('u' :: '{' :: (hs ++ '}' :: S)).take (hs.length + 3) = 'u' :: '{' :: (hs ++ ['}']) := by
+    simp [List.take_append, List.take_of_length_le]
+  rw [hd, htk]
+  simp
+
+/-! ## the lexer's scanner on documented text (`ScanThrough`) -/
+
+/-- the lexer's scanner walks over the spelling `s` and goes on behind it, whatever follows -/
+def ScanThrough (s : List Char) : Prop :=
+  ∀ S i, scan (s ++ S) i = scan S (i + utf8Len s)
+
+theorem scanThrough_nil : ScanThrough [] := by
+  intro S i; simp [utf8Len]
+
+theorem scanThrough_append (a b : List Char) (ha : ScanThrough a) (hb : ScanThrough b) :
+    ScanThrough (a ++ b) := by
+  intro S i
+  rw [List.append_assoc, ha, hb, utf8Len_append]; congr 1; omega
+
+theorem scanThrough_plain (t : List Char) (h : ∀ c ∈ t, special c = false) : ScanThrough t :=
+  fun S i => scan_plain t S i h
+
+theorem scanThrough_lbrace : ScanThrough ['{', '{'] := by
+  intro S i
+  rw [show ['{', '{'] ++ S = '{' :: '{' :: S from rfl, scan.eq_def]
+  simp [utf8Len]; congr 1
+
+theorem scanThrough_esc2 (k : Char) (tail : List Char) (h1 : k ≠ 'u') (h2 : k ≠ 'U')
+    (ht : ∀ c ∈ tail, special c = false) : ScanThrough ('\\' :: k :: tail) := by
+  intro S i
+  rw [show ('\\' :: k :: tail) ++ S = '\\' :: k :: (tail ++ S) from rfl, scan.eq_def]
+  simp only [beq_self_eq_true, if_true]
+  have : (k == 'u' || k == 'U') = false := by simp [h1, h2]
+  simp only [this, Bool.false_eq_true, if_false]
+  rw [scan_plain tail S _ ht]
+  simp [utf8Len]; congr 1; omega
+
+theorem skipToBrace_stop (hs S : List Char) (j : Nat) (h : ∀ c ∈ hs, c ≠ '}') :
+    skipToBrace (hs ++ '}' :: S) j = some (S, j + utf8Len hs + ('}' : Char).utf8Size) := by
+  induction hs generalizing j with
+  | nil => simp [skipToBrace, utf8Len]
+  | cons c hs ih =>
+    have hc : (c == '}') = false := by simpa using h c (by simp)
+    simp only [List.cons_append, skipToBrace, hc, Bool.false_eq_true, if_false]
+    rw [ih _ (fun x hx => h x (by simp [hx]))]
+    simp [utf8Len]; omega
+
+theorem scanThrough_unicode (hs : List Char) (h : ∀ c ∈ hs, c ≠ '}') :
+    ScanThrough ('\\' :: 'u' :: '{' :: (hs ++ ['}'])) := by
+  intro S i
+  rw [show ('\\' :: 'u' :: '{' :: (hs ++ ['}'])) ++ S = '\\' :: 'u' :: '{' :: (hs ++ '}' :: S) by simp, scan.eq_def]
+  simp only [beq_self_eq_true, if_true, Bool.true_or, bne_self_eq_false, Bool.false_eq_true, if_false]
+  split
+  · rename_i r j hsk
+    rw [skipToBrace_stop hs S _ h] at hsk
+    simp only [Option.some.injEq, Prod.mk.injEq] at hsk
+    obtain ⟨rfl, rfl⟩ := hsk
+    congr 1
+    simp [utf8Len, utf8Len_append]; omega
+  · rename_i hsk
+    rw [skipToBrace_stop hs S _ h] at hsk
+    simp at hsk
+
+/-- what the LEXER needs of an item -/
+def Item.lexOk : Item → Prop
+  | .plain c => special c = false
+  | .esc s _ => ScanThrough s
+  | .lbrace => True
+  | .rbrace => True
+
+theorem scanThrough_items (items : List Item) (h : ∀ it ∈ items, it.lexOk) : ScanThrough (spell items) := by
+  induction items with
+  | nil => exact scanThrough_nil
+  | cons it items ih =>
+    have hit := h it (by simp)
+    have ih' := ih (fun j hj => h j (by simp [hj]))
+    have : spell (it :: items) = it.spelling ++ spell items := by simp [spell]
+    rw [this]
+    apply scanThrough_append _ _ _ ih'
+    cases it with
+    | plain c => exact scanThrough_plain [c] (by intro d hd; simp at hd; subst hd; exact hit)
+    | esc s v => exact hit
+    | lbrace => exact scanThrough_lbrace
+    | rbrace => exact scanThrough_plain ['}', '}'] (by decide)
+
+/-- the lexer ends a documented text part exactly at the closing quote -/
+theorem fStringPart_end (items : List Item) (rest : List Char) (h : ∀ it ∈ items, it.lexOk) :
+    fStringPart (spell items ++ '"' :: rest) = .part .stringEnd (spell items) rest := by
+  have hs := scanThrough_items items h ('"' :: rest) 0
+  have hq : scan ('"' :: rest) (0 + utf8Len (spell items)) = .found .stringEnd (utf8Len (spell items)) := by
+    rw [scan.eq_def]; simp
+  unfold fStringPart
+  rw [hs, hq]
+  simp only [splitAtByte_prefix]
+  have h1 : splitAtByte ('"' :: rest) 1 = some (['"'], rest) := by
+    have := splitAtByte_prefix ['"'] rest
+    have h1 : ('"' : Char).utf8Size = 1 := by decide
+    simpa [utf8Len, h1] using this
+  simp [h1]
+
+/-- … and exactly before a hole -/
+theorem fStringPart_hole (items : List Item) (c : Char) (rest : List Char) (h : ∀ it ∈ items, it.lexOk)
+    (hc : c ≠ '{') :
+    fStringPart (spell items ++ '{' :: c :: rest) = .part .intermediate (spell items) ('{' :: c :: rest) := by
+  have hs := scanThrough_items items h ('{' :: c :: rest) 0
+  have hq : scan ('{' :: c :: rest) (0 + utf8Len (spell items)) = .found .intermediate (utf8Len (spell items)) := by
+    rw [scan.eq_def]
+    have h1 : ('{' : Char).utf8Size = 1 := by decide
+    simp [hc, h1]
+  unfold fStringPart
+  rw [hs, hq]
+  simp only [splitAtByte_prefix]
+
+/-- one text part up to the closing quote, through the lexer and a text decoder `pt` -/
+theorem fStringP_text (pt : List Char → Option (List Char)) (items : List Item) (rest : List Char) (fuel : Nat)
+    (hlex : ∀ it ∈ items, it.lexOk) (hne : spell items ≠ []) (hpt : pt (spell items) = some (meaning items)) :
+    fStringP pt (fuel + 1) (spell items ++ '"' :: rest) = some [.text (meaning items)] := by
+  rw [fStringP, fStringPart_end items rest hlex]
+  have : (spell items).isEmpty = false := by
+    cases h : spell items with
+    | nil => exact absurd h hne
+    | cons _ _ => rfl
+  simp [this, hpt]
+
+/-- text, hole, text, closing quote -/
+theorem fStringP_text_hole_text (pt : List Char → Option (List Char)) (a b : List Item) (h rest : List Char) (c : Char)
+    (fuel : Nat) (ha : ∀ it ∈ a, it.lexOk) (hb : ∀ it ∈ b, it.lexOk)
+    (hna : spell a ≠ []) (hnb : spell b ≠ [])
+    (hpa : pt (spell a) = some (meaning a)) (hpb : pt (spell b) = some (meaning b))
+    (hc : c ≠ '{') (hh : ∀ d ∈ c :: h, d ≠ '}') :
+    fStringP pt (fuel + 2) (spell a ++ '{' :: c :: (h ++ '}' :: (spell b ++ '"' :: rest))) =
+      some [.text (meaning a), .hole (c :: h), .text (meaning b)] := by
+  rw [fStringP, fStringPart_hole a c _ ha hc]
+  have he : eatWhile (fun d => d != '}') (c :: (h ++ '}' :: (spell b ++ '"' :: rest))) =
+      (c :: h, '}' :: (spell b ++ '"' :: rest)) := by
+    have := eatWhile_all (fun d => d != '}') (c :: h) ('}' :: (spell b ++ '"' :: rest))
+      (fun d hd => by simpa using hh d hd) (by simp [Stops])
+    simpa using this
+  simp only [he]
+  rw [fStringP_text pt b rest fuel hb hnb hpb]
+  have : (spell a).isEmpty = false := by
+    cases h : spell a with
+    | nil => exact absurd h hna
+    | cons _ _ => rfl
+  simp [this, hpa]
+
+/-- an f-string with any number of holes: segments `text {hole}` and a last text -/
+def renderSegs : List (List Item × List Char) → List Item → List Char → List Char
+  | [], last, rest => spell last ++ '"' :: rest
+  | (a, h) :: segs, last, rest => spell a ++ '{' :: (h ++ '}' :: renderSegs segs last rest)
+
+def partsOf : List (List Item × List Char) → List Item → List Part
+  | [], last => [.text (meaning last)]
+  | (a, h) :: segs, last => .text (meaning a) :: .hole h :: partsOf segs last
+
+/-- what is asked of a hole's source: non-empty, does not begin with `{`, no `}` inside -/
+def HoleOk (h : List Char) : Prop := (∃ c t, h = c :: t ∧ c ≠ '{') ∧ ∀ d ∈ h, d ≠ '}'
+
+theorem fStringP_segs (pt : List Char → Option (List Char)) (segs : List (List Item × List Char))
+    (last : List Item) (rest : List Char) (fuel : Nat)
+    (hseg : ∀ s ∈ segs, (∀ it ∈ s.1, it.lexOk) ∧ spell s.1 ≠ [] ∧ pt (spell s.1) = some (meaning s.1) ∧ HoleOk s.2)
+    (hl : ∀ it ∈ last, it.lexOk) (hnl : spell last ≠ []) (hpl : pt (spell last) = some (meaning last)) :
+    fStringP pt (segs.length + 1 + fuel) (renderSegs segs last rest) = some (partsOf segs last) := by
+  induction segs with
+  | nil =>
+    simp only [List.length_nil, Nat.zero_add, renderSegs, partsOf]
+    rw [Nat.add_comm]
+    exact fStringP_text pt last rest fuel hl hnl hpl
+  | cons s segs ih =>
+    obtain ⟨a, h⟩ := s
+    obtain ⟨ha, hna, hpa, ⟨c, t, rfl, hc⟩, hh⟩ := hseg (a, h) (by simp)
+    have ih' := ih (fun s hs => hseg s (by simp [hs]))
+    simp only [List.length_cons, renderSegs, partsOf]
+    rw [show segs.length + 1 + 1 + fuel = (segs.length + 1 + fuel) + 1 by omega, fStringP]
+    rw [show spell a ++ '{' :: (c :: t ++ '}' :: renderSegs segs last rest) =
+      spell a ++ '{' :: c :: (t ++ '}' :: renderSegs segs last rest) by simp]
+    rw [fStringPart_hole a c _ ha hc]
+    have he : eatWhile (fun d => d != '}') (c :: (t ++ '}' :: renderSegs segs last rest)) =
+        (c :: t, '}' :: renderSegs segs last rest) := by
+      have := eatWhile_all (fun d => d != '}') (c :: t) ('}' :: renderSegs segs last rest)
+        (fun d hd => by simpa using hh d hd) (by simp [Stops])
+      simpa using this
+    simp only [he]
+    rw [ih']
+    have : (spell a).isEmpty = false := by
+      cases h : spell a with
+      | nil => exact absurd h hna
+      | cons _ _ => rfl
+    simp [this, hpa]
 
 end RotoV.FString
